@@ -91,6 +91,12 @@ def plan(tier, seed):
         picks = [(by_n[5][rot % len(by_n[5])], 1, True), (by_n[7][rot % len(by_n[7])], 1, True), (by_n[7][-1 - rot], 1, True),
                  (by_n[11][rot % len(by_n[11])], 3, True), (by_n[13][rot % len(by_n[13])], 4, True),
                  (by_n[17][rot % len(by_n[17])], 1, False)]
+        # curves whose order is below the field size AND that have points with n <= x < p and x mod n != 0: the only
+        # place where "x-coordinate reduced mod n" differs from the x-coordinate itself (r = x - n), and where recovery must
+        # refuse / miss the signer (nonce point's x >= n)
+        wrap = [c for c in toys if c.n < c.p and any(P[0] >= c.n and P[0] % c.n for P in c.all_points())]
+        picks.append((wrap[seed % len(wrap)], 1, True))
+        picks.append((wrap[(seed * 7 + 11) % len(wrap)], 1, True))
         for c, parts, full in picks:
             for part in range(parts):
                 shards.append({"kind": "toy", "curve": _toy_params(c), "part": part, "parts": parts, "full": full,
@@ -593,6 +599,20 @@ def run_big(spec, rec):
             pick = fs if full and i % 4 == 0 else [fs[0], fs[(i // 3) % len(fs)], fs[7 if full else 4]]
             for (label, Qf, zf, rf, sf) in pick:
                 judge_key_verify(ctx, base_case(ctx, "key_verify", Q=list(Qf), z=zf, r=rf, s=sf, label=label))
+        # hand-built VALID signatures whose nonce point has n <= x < p (so r = x - n): Q = r^-1 (s R - z G).
+        # No signer ever produces them on the production curves (probability ~2^-128), verification must still accept
+        # them, and recovery need not return the signer.
+        if i % 6 == 0 and c.p > n:
+            j = 1 + (i // 6) % 40
+            while c.lift_x(n + j) is None or n + j >= c.p:
+                j += 1
+            R = c.lift_x(n + j)[i % 2]
+            rw, sw, zw = j, rng.randrange(1, n), rnd_z()
+            Qw = c.mul(pow(rw, -1, n), c.add(c.mul(sw, R), c.neg(c.mul(zw % n, c.G))))
+            if Qw is not None:
+                judge_verify(ctx, base_case(ctx, "verify", Q=list(Qw), z=zw, r=rw, s=sw, label="valid_wrapped_nonce_x_ge_n", as_point=False))
+                judge_verify(ctx, base_case(ctx, "verify", Q=list(Qw), z=zw, r=rw, s=n - sw, label="valid_wrapped_nonce_x_ge_n", as_point=False))
+                judge_verify(ctx, base_case(ctx, "verify", Q=list(Qw), z=zw, r=rw + 1, s=sw, label="wrapped_nonce_wrong_r", as_point=False))
         if i < 2:
             rec.sample({"config": spec.get("label"), "event": "sign", "d": d, "z": z, "r": r, "s": s, "k": sg["k"],
                         "forgeries_checked": [f[0] for f in fs]})
